@@ -425,7 +425,9 @@ FAILURES = ["Vac | name_that_is_not_defined_anywhere",      # BlackbirdSyntaxErr
             "Vac | 0.5",                                     # a float as a mode
             "int zz_fail = 1+2j",                            # a complex value for an int variable
             "float array ZZ[3, 3] =\n    1, 2",              # a declared shape that does not fit
-            "Dgate(1/0) | 0"]                                # an arithmetic error
+            "Dgate(1/0) | 0",                                # an arithmetic error
+            "float array ZZi =\n    1, 2\nfor int zzk in 0:3\n    Dgate(ZZi[zzk]) | 0",   # IndexError inside a loop body
+            "float array ZZj =\n    1, 2\nDgate(ZZj[7]) | 0"]  # IndexError outside a loop
 
 
 def first_script(pre, failure=0):
